@@ -131,7 +131,7 @@ ATOM_PROBES = {'atom%d_%s' % (i, pos): tpl.replace('{a}', a)
 # one sentinel per row of the state table (systematic sweep uses these right after every fault variant)
 SENTINELS = ['setext2', 'plain', 'code', 'ref_shortcut', 'ref_undefined', 'entity_def', 'headings',
              'fence_tilde', 'html2', 'table_interrupt', 'list_tight', 'list_loose', 'custom', 'quote',
-             'html_script', 'para_html']
+             'html_script', 'para_html', 'list_para_html', 'quote_para_html', 'pyg_unknown']
 
 # documents that end in an exception without any custom token (F3b); when a later tree no longer
 # crashes on them they silently become ordinary documents
